@@ -43,7 +43,7 @@ def _discr_edges(body, rx_prov, ty_prefix, label):
             continue
         a, _ = body.cond_atom(t["d"])
         if a[0] == "discr" and a[2].startswith(ty_prefix) and re.search(rx_prov, a[1]):
-            out.add((s, label))
+            out.add((s, body.label_for(s, label)))
     return out
 
 
